@@ -4,3 +4,10 @@ pub mod session;
 pub mod state_machine;
 mod timers;
 mod util;
+
+/// Verification hook: the session timer, for driving it under a controlled
+/// clock from outside the crate.
+#[cfg(nlnetlabs_routecore_verif)]
+pub mod verif {
+    pub use super::timers::Timer;
+}
